@@ -301,7 +301,7 @@ struct CtlAdaptor final : vf::ICtl {
 		if constexpr (IS_PLAN) {
 			auto p = c.plan(hfsm2::RegionID(region));
 			int i = 0;
-			for (auto it = p.begin(); it; ++it, ++i)
+			for (auto it = p.begin(); it && i <= int(FSM::TASK_CAPACITY); ++it, ++i)
 				if (i == index) { it.remove(); return true; }
 		}
 #endif
@@ -313,7 +313,11 @@ struct CtlAdaptor final : vf::ICtl {
 #if VF_PLANS
 		if constexpr (IS_PLAN) {
 			auto p = c.plan(hfsm2::RegionID(region));
-			for (auto it = p.begin(); it; ++it) out.push_back(toTask(*it));
+			int guard = 0;
+			for (auto it = p.begin(); it; ++it) {
+				if (++guard > int(FSM::TASK_CAPACITY)) { vf::TaskV cyc; cyc.origin = -99; out.push_back(cyc); break; }    // more items than the pool holds: the list is cyclic
+				out.push_back(toTask(*it));
+			}
 		}
 #endif
 		(void) region;
@@ -719,7 +723,7 @@ struct Node final : vf::INode {
 		drive(); vf::LibScope ls;
 		auto p = inst->plan(hfsm2::RegionID(region));
 		int i = 0;
-		for (auto it = p.begin(); it; ++it, ++i)
+		for (auto it = p.begin(); it && i <= int(FSM::TASK_CAPACITY); ++it, ++i)
 			if (i == index) { it.remove(); return true; }
 #endif
 		(void) region; (void) index;
@@ -732,7 +736,12 @@ struct Node final : vf::INode {
 		std::vector<vf::TaskV> tmp;
 		{
 			vf::LibScope ls;
-			for (auto it = p.begin(); it; ++it) { vf::HarnessScope hs; tmp.push_back(toTask(*it)); }
+			int guard = 0;
+			for (auto it = p.begin(); it; ++it) {
+				vf::HarnessScope hs;
+				if (++guard > int(FSM::TASK_CAPACITY)) { vf::TaskV cyc; cyc.origin = -99; tmp.push_back(cyc); break; }    // more items than the pool holds: the list is cyclic
+				tmp.push_back(toTask(*it));
+			}
 		}
 		out.swap(tmp);
 #endif
